@@ -5,13 +5,14 @@ export GOFLAGS=-mod=mod GOPROXY=off
 V="${VERIF_DIR:-$(cd "$(dirname "$0")" && pwd)}"
 cd "$V"
 mkdir -p .work bin
-VDIR="$V" python3 - <<'PY'
+R="${VERIF_REPO:-/repo}"
+VDIR="$V" RDIR="$R" python3 - <<'PY'
 import json,glob,os
-v=os.environ['VDIR']
+v=os.environ['VDIR']; r=os.environ['RDIR']
 rep={}
 for f in glob.glob(v+'/engine/*.go'):
-    rep['/repo/cmd/zz_verifx/'+os.path.basename(f)]=f
+    rep[r+'/cmd/zz_verifx/'+os.path.basename(f)]=f
 json.dump({'Replace':rep},open(v+'/.work/engine_overlay.json','w'))
 PY
-cd /repo
+cd "$R"
 go build -overlay "$V/.work/engine_overlay.json" -o "$V/bin/verifx" ./cmd/zz_verifx
